@@ -2,6 +2,8 @@
    Property theorems only (helper lemmas live in Proofs/Str.lean). Strings are lists of code
    points, byte strings lists of naturals; `Model.*` is the code, `Spec.*` the definition. -/
 import JrsVerif.Proofs.Str
+import JrsVerif.Proofs.StrBytes3
+import JrsVerif.Proofs.StrLossy
 
 namespace JrsVerif.Str
 
@@ -325,5 +327,323 @@ theorem strReplace_self (s from_ : List Nat) (h : from_ ≠ []) : Spec.strReplac
 
 example : List.intercalate [44] (Spec.splitLimit [97, 44, 44, 98] [44] (some 1)) = [97, 44, 44, 98] :=
   split_join _ _ _ (by simp)
+
+/-- C11.1  lossy decoding of input that is NOT valid UTF-8: valid text in front of anything is
+    passed through unchanged… -/
+theorem utf8_lossy_valid_prefix (s : List Nat) (hs : AllScalar s) (rest : List Nat) :
+    decLossy (enc s ++ rest) = s ++ decLossy rest :=
+  decLossy_append_valid s hs rest
+
+/-- C11.1  …at a position where no well-formed sequence starts, ONE U+FFFD replaces the maximal
+    ill-formed prefix (`badLen`, 1 to 3 bytes: Unicode "maximal subpart" practice) and decoding
+    resumes behind it… -/
+theorem utf8_lossy_invalid_step (b : Nat) (t : List Nat) (h : dec1 (b :: t) = none) :
+    decLossy (b :: t) = 0xFFFD :: decLossy ((b :: t).drop (badLen (b :: t))) ∧ 1 ≤ badLen (b :: t) :=
+  ⟨decLossy_cons_invalid b t h, badLen_pos b t⟩
+
+/-- C11.1  …so every input the strict decoder rejects shows at least one U+FFFD -/
+theorem utf8_lossy_marks_invalid (bs : List Nat) (h : dec bs = none) : 0xFFFD ∈ decLossy bs :=
+  decLossyF_marks bs.length bs (Nat.le_refl _) h
+
+/-- "a", truncated "→" (E2 86), "b", overlong C0 AF, surrogate ED A0 80 -/
+example : decLossy [0x61, 0xE2, 0x86, 0x62, 0xC0, 0xAF, 0xED, 0xA0, 0x80] =
+    [0x61, 0xFFFD, 0x62, 0xFFFD, 0xFFFD, 0xFFFD, 0xFFFD, 0xFFFD] := by decide
+
+/-! ## Round 3: the builtins that Rust runs on the UTF-8 bytes of a `str`
+
+`Model.*Bytes` is the Rust call on `str.as_bytes()` (searcher over ALL byte offsets, slices by
+byte offsets, byte tables); `Spec.*` is the definition by code point.  The pieces a byte-level
+call returns are byte slices (`&str` without re-validation), so the statements say that these
+slices are exactly the UTF-8 encodings of the code-point answer. -/
+
+/-- C11.10  `std.splitLimit(s, c, n)` / `std.split(s, c)` (`n = none`): Rust's `splitn(n+1, c)` /
+    `split(c)` over bytes cuts at exactly the leftmost non-overlapping code-point occurrences —
+    a needle never matches in the middle of a multi-byte character -/
+theorem splitLimit_spec (s sep : List Nat) (lim : Option Nat) (hsep : sep ≠ []) :
+    Model.splitLimitBytes s sep lim = (Spec.splitLimit s sep lim).map enc :=
+  splitLimitBytes_eq s sep lim hsep
+
+theorem split_spec (s sep : List Nat) (hsep : sep ≠ []) :
+    Model.splitLimitBytes s sep none = (Spec.splitLimit s sep none).map enc :=
+  splitLimitBytes_eq s sep none hsep
+
+/-- C11.10  `std.splitLimitR`: `rsplitn(n+1, c)` collected and reversed is the reference
+    definition "reverse, split from the left, reverse back" on code points -/
+theorem splitLimitR_spec (s sep : List Nat) (lim : Option Nat) (hsep : sep ≠ []) :
+    Model.splitLimitRBytes s sep lim = (Spec.splitLimitR s sep lim).map enc :=
+  splitLimitRBytes_eq s sep lim hsep
+
+/-- "ßé" = C3 9F C3 A9 split at "é" = C3 A9 and "aaa" split from either end at "aa" -/
+example : Model.splitLimitBytes [0xDF, 0xE9] [0xE9] none = [[0xC3, 0x9F], []] ∧
+    Model.splitLimitBytes [97, 97, 97] [97, 97] (some 1) = [[], [97]] ∧
+    Model.splitLimitRBytes [97, 97, 97] [97, 97] (some 1) = [[97], []] := by decide
+
+/-- C11.10  `std.strReplace`: an empty `from` is an error; otherwise `str::replace` over bytes is
+    the code-point definition (join of the split with `to`) -/
+theorem strReplace_spec (s from_ to : List Nat) :
+    Model.strReplaceBytes s from_ to =
+      if from_ = [] then none else some (enc (Spec.strReplace s from_ to)) := by
+  split
+  · rename_i h; subst h; rfl
+  · rename_i h; exact strReplaceBytes_eq s from_ to h
+
+/-- C11.10  …which is the left-to-right scan that substitutes at an occurrence and continues
+    AFTER it (overlapping occurrences are not replaced twice) -/
+theorem strReplace_scan (s from_ to : List Nat) :
+    Spec.strReplace s from_ to = Spec.replaceScan from_ to s := by
+  unfold Spec.strReplace Spec.splitLimit
+  simpa using intercalate_splitGo_scan from_ to s []
+
+example : Model.strReplaceBytes [97, 97, 97] [97, 97] [98] = some [98, 97] ∧
+    Model.strReplaceBytes [97] [] [98] = none := by decide
+example : Spec.replaceScan [97, 97] [98] [97, 97, 97, 97, 97] = [98, 98, 97] := by
+  simp [Spec.replaceScan]
+
+/-- C11.2  `std.endsWith(a, b)` on strings (byte comparison of the tail) is the code-point suffix
+    test -/
+theorem endsWith_spec (a b : List Nat) : Model.endsWith a b = Spec.endsWith a b := endsWith_eq a b
+
+/-- "é" = C3 A9 does not end with the character U+00A9 = C2 A9, and "a©" does not end with a lone
+    continuation-byte look-alike -/
+example : Model.endsWith [0xE9] [0xA9] = false ∧ Model.endsWith [97, 0xE9] [0xE9] = true := by decide
+
+/-- C11.3  `std.length(s)`: counting the non-continuation bytes counts code points -/
+theorem length_spec (s : List Nat) : Model.lengthBytes s = s.length := lengthBytes_eq s
+
+/-- C11.3  `std.isEmpty(s)`: byte length zero iff no code points -/
+theorem isEmpty_spec (s : List Nat) : Model.isEmptyBytes s = s.isEmpty := isEmptyBytes_eq s
+
+/-- C11.3  `std.stringChars(s)`: one single-character string per code point, in order -/
+theorem stringChars_spec (s : List Nat) (hs : AllScalar s) :
+    Model.stringChars s = some (Spec.stringChars s) ∧ (Spec.stringChars s).length = s.length ∧
+    ∀ i : Nat, (Spec.stringChars s)[i]? = Option.map (fun c => [c]) s[i]? := by
+  refine ⟨by simp [Model.stringChars, utf8_roundtrip s hs, Spec.stringChars], by simp [Spec.stringChars], ?_⟩
+  intro i; simp [Spec.stringChars, List.getElem?_map]
+
+/-- C11.1  `std.encodeUTF8(s)` yields bytes (0..255) for every string of scalar values -/
+theorem encodeUTF8_bytes (s : List Nat) (hs : AllScalar s) : ∀ b ∈ enc s, b < 256 := by
+  induction s with
+  | nil => simp [enc]
+  | cons c t ih =>
+    intro b hb
+    simp only [enc, List.mem_append] at hb
+    rcases hb with hb | hb
+    · have hc := hs c (by simp)
+      simp only [isScalar, Bool.or_eq_true, Bool.and_eq_true, decide_eq_true_eq] at hc
+      unfold enc1 at hb
+      repeat' split at hb
+      all_goals (simp at hb; omega)
+    · exact ih (fun d hd => hs d (by simp [hd])) b hb
+
+/-- C11.4  `std.trim`: `trim_matches` with the closure of `builtin_trim` strips exactly the class
+    {space, TAB, LF, FF, CR, U+0085, U+00A0} — not VT, not U+2003, not U+3000 — from both ends,
+    maximally -/
+theorem trim_spec (s : List Nat) :
+    Model.trim s = Spec.strip s Spec.trimSet ∧
+    (∀ v, Model.trimPred v = true ↔ v ∈ [0x20, 0x09, 0x0A, 0x0C, 0x0D, 0x85, 0xA0]) ∧
+    ∃ pre suf, s = pre ++ Model.trim s ++ suf ∧
+      (∀ x ∈ pre, Model.trimPred x = true) ∧ (∀ x ∈ suf, Model.trimPred x = true) ∧
+      (∀ h, (Model.trim s).head? = some h → Model.trimPred h = false) ∧
+      (∀ l, (Model.trim s).getLast? = some l → Model.trimPred l = false) := by
+  refine ⟨trim_eq s, ?_, ?_⟩
+  · intro v; rw [trimPred_eq]; simp [Spec.trimSet]
+  · obtain ⟨_, pre, suf, e, h1, h2, h3, h4⟩ := strip_spec s Spec.trimSet
+    rw [strip_model_eq_spec, ← trim_eq] at e h3 h4
+    refine ⟨pre, suf, e, ?_, ?_, ?_, ?_⟩
+    · intro x hx; rw [trimPred_eq]; simpa using h1 x hx
+    · intro x hx; rw [trimPred_eq]; simpa using h2 x hx
+    · intro h hh; rw [trimPred_eq]; simpa using h3 h hh
+    · intro l hl; rw [trimPred_eq]; simpa using h4 l hl
+
+example : Model.trim [0x0B, 0x20, 97, 0xA0, 0x85] = [0x0B, 0x20, 97] ∧ Model.trim [0x20, 0x3000, 9] = [0x3000] := by
+  decide
+
+/-- C11.11  `std.escapeStringJson` / `std.escapeStringPython` (the same function): the byte-table
+    escaper (`ESCAPE[256]` as extracted from the source) is the per-code-point definition; bytes
+    of multi-byte characters are never touched -/
+theorem escapeStringJson_spec (s : List Nat) :
+    Model.escapeJsonBytes s = enc (Spec.escapeStringJson s) := by
+  unfold Model.escapeJsonBytes Spec.escapeStringJson
+  rw [enc_append, enc_append, flatMap_enc Model.escJsonByte Spec.escJson1 escJsonByte_low
+    escJsonByte_high escJson1_high]
+  rfl
+
+/-- C11.11  `std.escapeStringXML`: the five predefined entities, nothing else -/
+theorem escapeStringXml_spec (s : List Nat) :
+    Model.escapeXmlBytes s = enc (Spec.escapeStringXml s) := by
+  unfold Model.escapeXmlBytes Spec.escapeStringXml
+  apply flatMap_enc _ _ xmlEscByte_low
+  · intro b hb
+    have e : ∀ k, k < 128 → (b == k) = false := fun k hk => by simp; omega
+    simp [Model.xmlEscByte, e]
+  · intro c hc
+    have e : ∀ k, k < 128 → (c == k) = false := fun k hk => by simp; omega
+    simp [e]
+
+/-- C11.11  `std.escapeStringBash`: `replace('\'', "'\"'\"'")` over bytes between two quotes -/
+theorem escapeStringBash_spec (s : List Nat) :
+    Model.escapeBashBytes s = enc (Spec.escapeStringBash s) := by
+  unfold Model.escapeBashBytes Spec.escapeStringBash
+  rw [replaceF_eq _ _ (by simp) _ _ (Nat.lt_succ_self _), intercalate_splitGo_scan, replaceScan_single,
+    enc_append, enc_append]
+  simp only [List.reverse_nil, List.nil_append]
+  rw [flatMap_enc (fun x => if x == 39 then [39, 34, 39, 34, 39] else [x])
+    (fun c => if c == 39 then [39, 34, 39, 34, 39] else [c])]
+  · rfl
+  · intro c _; split <;> simp [enc, enc1]
+    omega
+  · intro b hb; have : (b == 39) = false := by simp; omega
+    simp [this]
+  · intro c hc; have : (c == 39) = false := by simp; omega
+    simp [this]
+
+/-- C11.11  `std.escapeStringDollars`: `replace('$', "$$")` over bytes -/
+theorem escapeStringDollars_spec (s : List Nat) :
+    Model.escapeDollarsBytes s = enc (Spec.escapeStringDollars s) := by
+  unfold Model.escapeDollarsBytes Spec.escapeStringDollars
+  rw [replaceF_eq _ _ (by simp) _ _ (Nat.lt_succ_self _), intercalate_splitGo_scan, replaceScan_single]
+  simp only [List.reverse_nil, List.nil_append]
+  apply flatMap_enc
+  · intro c _; split <;> simp [enc, enc1]
+    omega
+  · intro b hb; have : (b == 36) = false := by simp; omega
+    simp [this]
+  · intro c hc; have : (c == 36) = false := by simp; omega
+    simp [this]
+
+example : Model.escapeJsonBytes [0xE9, 34, 1, 0x2028] =
+    [34, 0xC3, 0xA9, 92, 34, 92, 117, 48, 48, 48, 49, 0xE2, 0x80, 0xA8, 34] ∧
+    Model.escapeBashBytes [39, 0xE9] = [39, 39, 34, 39, 34, 39, 0xC3, 0xA9, 39] := by decide +kernel
+
+/-- C11.8  the base64 decoder is sound: whatever it accepts is the canonical RFC 4648 encoding of
+    its result — missing/extra padding, non-alphabet characters (URL-safe `-_`, whitespace) and
+    non-zero trailing bits are all rejected -/
+theorem base64_decode_sound (t bs : List Nat) (h : Spec.b64Dec t = some bs) :
+    Spec.b64Enc bs = t ∧ ∀ b ∈ bs, b < 256 :=
+  b64Dec_sound t.length t (Nat.le_refl _) bs h
+
+/-- C11.8  …so a text decodes iff it is the encoding of a byte string, and to that byte string -/
+theorem base64_decode_accepts_iff (t bs : List Nat) :
+    Spec.b64Dec t = some bs ↔ (∀ b ∈ bs, b < 256) ∧ Spec.b64Enc bs = t := by
+  constructor
+  · intro h; exact ⟨(base64_decode_sound t bs h).2, (base64_decode_sound t bs h).1⟩
+  · rintro ⟨hb, rfl⟩; exact base64_roundtrip bs hb
+
+example : Spec.b64Dec [81, 81, 61, 61] = some [65] ∧ Spec.b64Dec [81, 82, 61, 61] = none ∧
+    Spec.b64Dec [81, 81, 61] = none ∧ Spec.b64Dec [81, 81] = none ∧ Spec.b64Dec [45, 95, 61, 61] = none := by
+  decide
+
+/-- C11.5  `parse_nat` with the f64 range (`Model.parseNatX`: +∞ once the fold overflows, which
+    `Val::Num` refuses): exact below 2^53 -/
+theorem parseNatX_spec (base : Nat) (hb : base = 8 ∨ base = 10 ∨ base = 16) (s : List Nat) (v : Nat)
+    (h : Spec.parseNat base s = some v) (hv : v < 2 ^ 53) : Model.parseNatX base s = some v := by
+  unfold Spec.parseNat at h; unfold Model.parseNatX
+  split at h
+  · simp at h
+  · rename_i hne
+    rw [if_neg hne, parseNatGoX_exact base hb s 0 v h hv]
+
+/-- C11.5  …an error exactly for the empty string, a non-digit of the base, or overflow to +∞ -/
+theorem parseNatX_reject_iff (base : Nat) (hb : base = 8 ∨ base = 10 ∨ base = 16) (s : List Nat) :
+    Model.parseNatX base s = none ↔
+      s = [] ∨ (∃ c ∈ s, Spec.digitVal base c = none) ∨ Model.parseNatGoX base s (some 0) = some none := by
+  unfold Model.parseNatX
+  by_cases hs : s = []
+  · simp [hs]
+  · simp only [List.isEmpty_iff, hs, if_false, false_or]
+    rw [← parseNatGoX_none_iff base hb s (some 0)]
+    cases Model.parseNatGoX base s (some 0) with
+    | none => simp
+    | some o => cases o <;> simp
+
+/-- C11.5  …and wherever it returns a value, that value is the one of the fused fold without the
+    range check (the model the earlier theorems are about) -/
+theorem parseNatX_refines (base : Nat) (s : List Nat) (v : Nat) (h : Model.parseNatX base s = some v) :
+    Model.parseNat base s = some v := by
+  unfold Model.parseNatX at h; unfold Model.parseNat
+  split at h
+  · cases h
+  · rename_i hne
+    rw [if_neg hne]
+    split at h
+    · rename_i w hw
+      cases h
+      exact parseNatGoX_old base s 0 _ hw
+    · cases h
+
+/-- C11.5  every step of the fold beyond 2^53 returns a multiple of the unit in the last place at
+    most half a unit from the exact `base·acc + digit`, the even one on a tie (IEEE
+    round-to-nearest-even of the fused multiply-add) -/
+theorem parseNat_step_rounding (n : Nat) (h : 2 ^ 53 ≤ n) :
+    ∃ q, Model.roundF64 n = q * 2 ^ (n.log2 - 52) ∧
+      2 * (Model.roundF64 n - n) ≤ 2 ^ (n.log2 - 52) ∧ 2 * (n - Model.roundF64 n) ≤ 2 ^ (n.log2 - 52) ∧
+      ((2 * (Model.roundF64 n - n) = 2 ^ (n.log2 - 52) ∨ 2 * (n - Model.roundF64 n) = 2 ^ (n.log2 - 52)) →
+        q % 2 = 0) :=
+  roundF64_nearest n h
+
+/-- C11.5  `std.parseInt`: one optional leading `-`, then `parse_nat::<10>` of the rest; `""`, `"-"`,
+    `"+1"`, `"--1"`, `" 1"` are errors -/
+theorem parseInt_sign :
+    (∀ r, Model.parseIntX (45 :: r) = none ↔ Model.parseNatX 10 r = none) ∧
+    (∀ s, (∀ r, s ≠ 45 :: r) → (Model.parseIntX s = none ↔ Model.parseNatX 10 s = none)) := by
+  constructor
+  · intro r
+    simp only [Model.parseIntX]
+    by_cases hr : r = []
+    · subst hr; simp [Model.parseNatX]
+    · simp only [List.isEmpty_iff, hr, if_false]
+      cases Model.parseNatX 10 r <;> simp [Spec.negOf]
+  · intro s hs
+    unfold Model.parseIntX
+    split
+    · rename_i r; exact absurd rfl (hs r)
+    · cases Model.parseNatX 10 s <;> simp [Spec.posOf]
+
+example : Model.parseIntX [] = none ∧ Model.parseIntX [45] = none ∧ Model.parseIntX [43, 49] = none ∧
+    Model.parseIntX [45, 45, 49] = none ∧ Model.parseIntX [32, 49] = none ∧
+    Model.parseIntX [45, 49, 50] = some (-12) ∧ Model.parseIntX [45, 48] = some 0 := by decide +kernel
+
+/-- 2^53+1 (odd, a tie) parses to 2^53; 2^53+3 to 2^53+4 -/
+example : Model.parseNatX 10 ("9007199254740993".toList.map Char.toNat) = some 9007199254740992 ∧
+    Model.parseNatX 10 ("9007199254740995".toList.map Char.toNat) = some 9007199254740996 := by
+  decide +kernel
+
+/-- C11.12  `std.parseJson` accepts a text iff, after leading whitespace, ONE value is read and
+    everything after it is JSON whitespace (independent RFC 8259 reader of C05, `Json.read`) -/
+theorem parseJson_accepts_iff (inp : List UInt8) :
+    (JrsVerif.Json.read inp).isSome = true ↔
+      ∃ v r, JrsVerif.Json.pVal (inp.length + 1) (JrsVerif.Json.skipWs inp) = some (v, r) ∧
+        ∀ b ∈ r, JrsVerif.Json.isWs b = true := by
+  unfold JrsVerif.Json.read
+  cases h : JrsVerif.Json.pVal (inp.length + 1) (JrsVerif.Json.skipWs inp) with
+  | none => simp
+  | some vr =>
+    obtain ⟨v, r⟩ := vr
+    simp only [List.isEmpty_iff, skipWs_nil_iff]
+    constructor
+    · intro hh
+      split at hh
+      · rename_i hw; exact ⟨v, r, rfl, hw⟩
+      · cases hh
+    · rintro ⟨v', r', e, hw⟩
+      cases e
+      simpa using hw
+
+/-- C11.12  …in particular trailing text after the first value is rejected -/
+theorem parseJson_rejects_trailing (inp : List UInt8) (v : JrsVerif.Json.J) (r : List UInt8)
+    (h : JrsVerif.Json.pVal (inp.length + 1) (JrsVerif.Json.skipWs inp) = some (v, r))
+    (b : UInt8) (hb : b ∈ r) (hw : JrsVerif.Json.isWs b = false) : JrsVerif.Json.read inp = none := by
+  cases hr : JrsVerif.Json.read inp with
+  | none => rfl
+  | some j =>
+    have := (parseJson_accepts_iff inp).mp (by simp [hr])
+    obtain ⟨v', r', e, hall⟩ := this
+    rw [h] at e
+    simp only [Option.some.injEq, Prod.mk.injEq] at e
+    rw [← e.2] at hall
+    rw [hall b hb] at hw; cases hw
+
+example : JrsVerif.Json.read "[1] x".toUTF8.toList = none ∧ JrsVerif.Json.read "1 2".toUTF8.toList = none ∧
+    (JrsVerif.Json.read " [1] \n".toUTF8.toList).isSome = true := by decide +kernel
 
 end JrsVerif.Str
